@@ -1,7 +1,7 @@
 (* WeatherProofs.v — lemmas about WeatherModel (model of hermes/weather_input.go), for every
    instance of the numeric class. *)
 From Coq Require Import ZArith List Bool Lia FinFun.
-From Hermes Require Import Num Util Calendar WeatherModel.
+From Hermes Require Import Num Util Calendar DateModel DateProofs WeatherModel.
 Import ListNotations.
 Open Scope Z_scope.
 
@@ -1157,5 +1157,35 @@ Section WP.
       assert (Hlo' : 1 <= lo (sy + Z.of_nat j')) by (unfold lo; destruct (sy + Z.of_nat j' =? sy); lia).
       destruct (finish_part none corr yrz st3 j' (sy + Z.of_nat j') _ _ W3 Lz ltac:(lia) Hlo' (PS j' ltac:(lia))) as (A' & _).
       fold stf in A'. rewrite A'. unfold j in Hj'. lia.
+  Qed.
+
+  (* the monthly factor transformWeatherData picks for a day is the factor of the CIVIL month of that
+     day, in leap and non-leap years (F21 repaired): all 12 months x both year kinds *)
+  Lemma precip_factor_is_civil_month (corr : list T) (t : date) :
+    1901 <= dy t <= 2099 -> valid_date t = true ->
+    corr_value corr (corr_day (dy t) (Z.to_nat (doy t - 1))) = nth (Z.to_nat (dm t - 1)) corr one.
+  Proof.
+    intros Hy Hv. destruct t as [y m d]. cbn [dy dm dd] in *.
+    pose proof (DateProofs.leap_range y Hy) as Hl.
+    unfold valid_date in Hv. cbn [dy dm dd] in Hv.
+    apply andb_true_iff in Hv as [Hv H4]. apply andb_true_iff in Hv as [Hv H3].
+    apply andb_true_iff in Hv as [H1 H2]. apply Z.leb_le in H1, H2, H3, H4.
+    assert (Hrem : (Z.rem y 4 =? 0) = (y mod 4 =? 0)) by (rewrite Z.rem_mod_nonneg by lia; reflexivity).
+    unfold corr_day. rewrite Hrem.
+    assert (Hm : m = 1 \/ m = 2 \/ m = 3 \/ m = 4 \/ m = 5 \/ m = 6 \/ m = 7 \/ m = 8 \/ m = 9 \/
+                 m = 10 \/ m = 11 \/ m = 12) by lia.
+    unfold doy. cbn [dy dm dd].
+    repeat (destruct Hm as [-> | Hm]); try subst m;
+      (destruct (leap y) eqn:L; rewrite <- Hl;
+       cbn in H4; rewrite ?L in H4;
+       cbn [days_before_month Z.to_nat Z.sub Z.add Z.opp Z.pos_sub Pos.pred_double];
+       unfold Pos.to_nat; cbn [Pos.iter_op Nat.add days_before_month Z.of_nat Pos.of_succ_nat Pos.succ mlen];
+       rewrite ?L;
+       match goal with |- context [Z.of_nat (Z.to_nat ?e)] => rewrite (Z2Nat.id e) by lia end;
+       cbn [andb]; unfold corr_value;
+       repeat match goal with
+              | |- context [?a >? ?b] => destruct (Z.gtb_spec a b); try lia
+              | |- context [?a <? ?b] => destruct (Z.ltb_spec a b); try lia
+              end; reflexivity).
   Qed.
 End WP.
